@@ -42,7 +42,7 @@ text.append("texts; `seeded/equivalent/e01..e15`: non-recursive iterators, in-pl
 text.append("re-implemented navigation attributes, Resolver get/glob/cache rewrites, RenderTree without recursion, Walker by index arithmetic,")
 text.append("non-recursive dict export/import, attribute insertion order of `Node` changed, DOT/Mermaid edge statements emitted in another order,")
 text.append("escaping by `str.replace`, ...) were applied one at a time and all twenty quick checks run against each: 300 runs, no alarm")
-text.append("(`tools/eq_eval.py`, `seeded/equivalent_refactorings.json`).  Two over-strict oracles had been found and loosened before by such an")
+text.append("(`tools/eq_eval.py`, `seeded/equivalent_results.json, seeded/equivalent2_results.json`).  Two over-strict oracles had been found and loosened before by such an")
 text.append("experiment (key order of plain dicts in C10/C11; iterator-protocol details in C05; exact word order of the CountError message in C14).")
 text.append("")
 text.append("| change | what it is / what it needs to manifest (from the author's notes) | caught by own check | witness classes | also caught by |")
